@@ -44,6 +44,9 @@ def _neighbours(lines):
         if len(toks) > 3:
             out.append((li, " ".join(toks[:-1])))
     return out[:120]
+def _multiset_neighbours(lines):
+    """the same equations with one of them stated two more times (another QAP: more constraints, other key material)"""
+    return [lines[:i] + [lines[i]] * 3 + lines[i + 1:] for i in range(0, min(len(lines), 12), 3)]
 import pysnark.qaptools.backend as qb
 LOG = []
 CALLS = []
@@ -75,6 +78,10 @@ def _qaphash(q):
         PROBES["neighbours"] += 1
         if _qh(q[:li] + [nl] + q[li + 1:]) == d and len(PROBES["collisions"]) < 5:
             PROBES["collisions"].append([q[li], nl, d])
+    for v in _multiset_neighbours(q):
+        PROBES["neighbours"] += 1
+        if _qh(v) == d and len(PROBES["collisions"]) < 5:
+            PROBES["collisions"].append([q[0] if q else "", "(one line stated three times instead of once)", d])
     return d
 _qs.qaphash = _qaphash
 import pysnark.runtime as rt
@@ -111,6 +118,16 @@ def gen_script(rnd):
     for k in range(nfun):
         ar = rnd.randint(1, 3)
         args = ["a%d" % i for i in range(ar)]
+        fwd = [f_ for f_ in funs if f_[2] == 1 and f_[1] <= ar]
+        if fwd and rnd.random() < 0.3:
+            # a pure forwarder: the whole body is one call of another sub-circuit on (some of) its own arguments
+            g, gar, gres = rnd.choice(fwd)
+            shapes.add("forwarder")
+            lines.append("@subqap(\"%s\")" % fnames[k])
+            lines.append("def f%d(%s):" % (k, ", ".join(args)))
+            lines.append("    return %s(%s)" % (g, ", ".join(rnd.sample(args, gar))))
+            funs.append(("f%d" % k, ar, 1))
+            continue
         body = []
         names = list(args)
         for j in range(rnd.randint(1, 4)):
@@ -173,6 +190,14 @@ def gen_script(rnd):
             lines.append("    return None")
             funs.append(("f%d" % k, ar, 0))
             shapes.add("no-return-value")
+            continue
+        nested_last = [f_ for f_ in funs if f_[2] == 1 and f_[1] >= 1]
+        if nested_last and nres == 1 and rnd.random() < 0.5:
+            # the function's last wire-allocating action is a call of another sub-circuit whose result it hands straight back
+            g, gar, gres = rnd.choice(nested_last)
+            shapes.add("returns-nested-call-result")
+            lines.append("    return %s(%s)" % (g, ", ".join((rnd.choice(names) + (" + a0 * 0" if ai == 0 else "")) for ai in range(gar))))
+            funs.append(("f%d" % k, ar, 1))
             continue
         lines.append("    return %s" % (res[0] if nres == 1 else "[" + ", ".join(res) + "]"))
         funs.append(("f%d" % k, ar, nres))
